@@ -53,6 +53,57 @@ theorem C13_exact (r : Reaction) (ops : List Op) (t : Transition) (ht : t ∈ r.
   unfold nodeDyn
   rw [C13_selector _ _ _ _ (chain_decay_mem r t ht ch hch ni hni)]
 
+/-- **C13_exact on the chain AMPLITUDE, for every builder configuration.** Whatever `use_helicity_couplings`
+(amplitude coefficient `C` per chain vs helicity coupling `H` per node), the naming flags, the alignment,
+`stable_final_state_ids` and `scalar_initial_state_mass` are: the dynamics factors multiplied into the amplitude
+of a chain are, node by node (ascending node ids), exactly the calls of `C13_exact` — the builder of the LAST
+operation denoting that node's decay on the decaying particle and the node's own variable set. -/
+theorem C13_exact_amplitude (cfg : Config) (r : Reaction) (ops : List Op) (pm : List (Name × Name))
+    (t : Transition) (ht : t ∈ r.transitions) (ch : Chain) (hch : ch ∈ t.chains) :
+    (chainSkel cfg (run (ctxOf r) (initialDecays true r) ops) r pm t ch).nodes.map (·.dyn)
+      = (r.tree ch.topo).infosSorted.map (fun ni =>
+          some ⟨spec (ctxOf r) ops (dkey ch.states t.inters ni),
+                (stateAt ch.states ni.self.edge).pidx, varSet r ch.states t.inters ni⟩) := by
+  simp only [chainSkel, List.map_map]
+  apply List.map_congr_left
+  intro ni hni
+  have hmem : ni ∈ (r.tree ch.topo).infos := by
+    unfold Tree.infosSorted at hni
+    exact (mem_sortBy _ _ _).1 hni
+  simp only [Function.comp, nodeSkel]
+  exact C13_exact r ops t ht ch hch ni hmem
+
+/-- … hence every node of every chain contributes a factor (none is dropped), in either mode -/
+theorem C13_amplitude_factors (cfg : Config) (r : Reaction) (ops : List Op) (pm : List (Name × Name))
+    (t : Transition) (ht : t ∈ r.transitions) (ch : Chain) (hch : ch ∈ t.chains) :
+    (chainSkel cfg (run (ctxOf r) (initialDecays true r) ops) r pm t ch).dynFactors
+      = (r.tree ch.topo).infosSorted.map (fun ni =>
+          ⟨spec (ctxOf r) ops (dkey ch.states t.inters ni),
+           (stateAt ch.states ni.self.edge).pidx, varSet r ch.states t.inters ni⟩) := by
+  have h := C13_exact_amplitude cfg r ops pm t ht ch hch
+  unfold ChainSkel.dynFactors
+  have h2 : ∀ (xs : List NodeSkel), xs.filterMap (·.dyn) = (xs.map (·.dyn)).filterMap id := by
+    intro xs; simp [List.filterMap_map]
+  rw [h2, h]
+  simp [List.filterMap_map]
+
+/-- the two coefficient modes differ in the coefficient / coupling symbols ONLY: same Wigner-D angles, same
+dynamics factors -/
+theorem C13_mode_independent (cfg cfg' : Config) (m : Choices) (r : Reaction) (pm pm' : List (Name × Name))
+    (t : Transition) (ch : Chain) :
+    (chainSkel cfg m r pm t ch).nodes.map (fun ns => (ns.phi, ns.theta, ns.dyn))
+      = (chainSkel cfg' m r pm' t ch).nodes.map (fun ns => (ns.phi, ns.theta, ns.dyn)) := by
+  simp [chainSkel, nodeSkel, List.map_map, Function.comp]
+
+/-- helicity-coupling mode: no chain coefficient, one coupling per node; amplitude-coefficient mode: one chain
+coefficient, no couplings -/
+theorem C13_mode_shape (cfg : Config) (m : Choices) (r : Reaction) (pm : List (Name × Name)) (t : Transition) (ch : Chain) :
+    (cfg.helicityCouplings = true →
+        (chainSkel cfg m r pm t ch).coef = none ∧ ∀ ns ∈ (chainSkel cfg m r pm t ch).nodes, ns.coupling.isSome = true)
+    ∧ (cfg.helicityCouplings = false →
+        (chainSkel cfg m r pm t ch).coef.isSome = true ∧ ∀ ns ∈ (chainSkel cfg m r pm t ch).nodes, ns.coupling = none) := by
+  constructor <;> intro h <;> simp [chainSkel, nodeSkel, h]
+
 /-- no operation denotes the node's decay ⇒ the non-dynamic builder (factor 1) -/
 theorem C13_unselected (r : Reaction) (ops : List Op) (d : Decay)
     (h : ∀ op ∈ ops, denotes (ctxOf r) op.sel d = false) : spec (ctxOf r) ops d = nonDynamic := by
